@@ -552,6 +552,27 @@ def n_filter(eng, args, kwargs, st):
     return [(acc, s) if isinstance(acc, Raise) else (s.alloc(HList(acc)), s) for acc, s in outs]
 
 
+def n_filterfalse(eng, args, kwargs, st):
+    f, it = args
+    items = eng.iter_concrete(it, st)
+    outs = [([], st)]
+    for item in items:
+        nxt = []
+        for acc, s in outs:
+            if isinstance(acc, Raise):
+                nxt.append((acc, s))
+                continue
+            tests = [(item, s)] if f is None else eng.call(f, [item], {}, s)
+            for tv, s2 in tests:
+                if isinstance(tv, Raise):
+                    nxt.append((tv, s2))
+                    continue
+                for flag, s3 in eng.fork(eng.truth(tv, s2), s2):
+                    nxt.append((acc, s3) if flag else (acc + [item], s3))
+        outs = nxt
+    return [(acc, s) if isinstance(acc, Raise) else (s.alloc(HList(acc)), s) for acc, s in outs]
+
+
 def n_enumerate(eng, args, kwargs, st):
     it = args[0]
     start = args[1] if len(args) > 1 else kwargs.get("start", 0)
@@ -905,6 +926,55 @@ def _deep_clone(v, st, memo):
     return r
 
 
+def _ast_children(v, st):
+    """ast.iter_child_nodes on a modelled node: the node-valued fields (and node members of list fields) in the order of the class's _fields"""
+    if not (isinstance(v, Ref) and isinstance(st.heap[v.oid], HObj) and (st.heap[v.oid].cls or "").startswith("ast.")):
+        raise Unsupported("ast traversal of %r" % (v,))
+    h = st.heap[v.oid]
+    cls = getattr(ast, h.cls[4:], None)
+    if cls is None:
+        raise Unsupported("unknown ast class %s" % h.cls)
+
+    def is_node(x):
+        return isinstance(x, Ref) and isinstance(st.heap[x.oid], HObj) and (st.heap[x.oid].cls or "").startswith("ast.")
+
+    out = []
+    for f in cls._fields:
+        if f not in h.attrs:
+            continue
+        x = h.attrs[f]
+        if is_node(x):
+            out.append(x)
+        elif isinstance(x, Ref) and isinstance(st.heap[x.oid], HList):
+            for y in st.heap[x.oid].items:
+                if is_node(y):
+                    out.append(y)
+                elif isinstance(y, Opq):
+                    raise Unsupported("opaque member in an ast list field")
+        elif isinstance(x, Opq):
+            raise Unsupported("opaque ast field %s" % f)
+    return out
+
+
+def n_iter_child_nodes(eng, args, kwargs, st):
+    return ok(st.alloc(HList(_ast_children(args[0], st))), st)
+
+
+def n_ast_walk(eng, args, kwargs, st):
+    """ast.walk: breadth-first, as CPython's deque-based implementation.  The list is computed at call time: code that adds or removes
+    nodes while walking is outside this model (annotate_ancestry only sets attributes and rebuilds argument lists with the same members)"""
+    todo = [args[0]]
+    out = []
+    while todo:
+        n = todo.pop(0)
+        out.append(n)
+        todo.extend(_ast_children(n, st))
+        if len(out) > 400:
+            raise Unsupported("ast.walk over more than 400 nodes")
+    eng.assumed.add("ast.walk / iter_child_nodes on modelled nodes: computed at call time in CPython's order (BFS over _fields)")
+    return ok(st.alloc(HList(out)), st)
+
+
 def n_deepcopy(eng, args, kwargs, st):
     return ok(_deep_clone(args[0], st, {}), st)
 
@@ -914,7 +984,7 @@ def n_identity(eng, args, kwargs, st):
 
 
 NATIVE = {
-    copy.deepcopy: n_deepcopy,
+    itertools.filterfalse: n_filterfalse, copy.deepcopy: n_deepcopy, ast.walk: n_ast_walk, ast.iter_child_nodes: n_iter_child_nodes,
     len: n_len, isinstance: n_isinstance, type: n_type, int: n_int, float: n_float, bool: n_bool, str: n_str,
     complex: n_complex, sum: n_sum, any: n_any, all: n_all, map: n_map, filter: n_filter,
     enumerate: n_enumerate, range: n_range, next: n_next, iter: n_iter, tuple: n_tuple, list: n_list,
@@ -1103,15 +1173,16 @@ def str_method(eng, recv, name, args, kwargs, st):
     if name == "replace":
         if len(args) == 3 and args[2] == 1:
             return ok(Sym(z3.Replace(s, to_term(args[0]), to_term(args[1])), "str"), st)
-        if len(args) == 2 and isinstance(args[0], str) and len(args[0]) == 1 and args[1] == "":
-            # s.replace(c, ""): removal of one character, as a skolem function with its defining facts (valid for all s)
+        if len(args) == 2 and isinstance(args[0], str) and len(args[0]) >= 1 and len(set(args[0])) == 1 and args[1] == "":
+            # s.replace(c * k, ""): removal of a run pattern, as a skolem function with its defining facts (valid for all s: every maximal
+            # run of c keeps n mod k < k copies and removal never joins two runs, so no occurrence is left)
             c = z3.StringVal(args[0])
             r = z3.Function("remove_%s" % smt.sha("rm:" + args[0])[:8], S, S)(s)
             st.pc.append(z3.Not(z3.Contains(r, c)))
             st.pc.append(z3.Length(r) <= z3.Length(s))
             st.pc.append(z3.Implies(z3.Not(z3.Contains(s, c)), r == s))
             st.pc.append(z3.Implies(z3.Length(r) == z3.Length(s), r == s))
-            eng.assumed.add("str.replace(c, ''): modelled by its defining facts (no c left, not longer, identity when c does not occur)")
+            eng.assumed.add("str.replace(c*k, ''): modelled by its defining facts (no occurrence left, not longer, identity when none occurs)")
             return ok(Sym(r, "str"), st)
         raise Unsupported("replace-all on a symbolic string")
     if name == "join":
